@@ -169,6 +169,37 @@ def check_case(ctx, case, rng):
         judge_input(ctx, case, cfgd, cfg, T, inp, (used, model.last_data_byte(mask)))
 
 
+def eof_elements(ctx, rng, reps):
+    """To-end-of-stream arrays of every element kind that is read entry by entry (with an end-of-stream probe before
+    each entry): a stream that raises at any read call -- the probes included -- must not be taken for the end."""
+    from ..gen import F, L_EOF, L_fixed, N_array, N_int, N_leb, N_ptr, N_struct
+
+    elems = {
+        "int24": N_int("int24"), "uint48": N_int("uint48"), "int128": N_int("int128"), "uleb128": N_leb("uleb128"),
+        "ileb128": N_leb("ileb128"), "struct": N_struct([F("a", N_int("uint8")), F("b", N_int("uint16"))]),
+        "union": N_struct([F("a", N_int("uint8")), F("b", N_int("uint16"))], union=True),
+        "ptr": N_ptr(N_int("uint8")), "array": N_array(N_int("uint8"), L_fixed(2)), "uint16": N_int("uint16"),
+    }
+    for name, elem in elems.items():
+        case = gen.simple_case([F("h", N_int("uint8")), F("x", N_array(elem, L_EOF))])
+        case["named"] = {}
+        for compiled in (True, False):
+            for endian in "<>":
+                cfgd = {"endian": endian, "align": False, "compiled": compiled, "ptr": "uint16"}
+                cfg = engine.mcfg(case, endian, False, "uint16")
+                cs, err = engine.load_cfg(ctx, case, cfgd)
+                if cs is None:
+                    ctx.violation("load", f"load-fails:{type(err).__name__}", case_detail(case, cfg=cfgd, error=repr(err)))
+                    continue
+                ctx.cell(f"eof-elements:{name}")
+                for _ in range(reps):
+                    try:
+                        inp, used, mask, v = engine.model_input(case, cfg, rng, tail=0)
+                    except model.ModelUnsupported:
+                        break
+                    judge_input(ctx, case, cfgd, cfg, cs.T, inp, (used, model.last_data_byte(mask)))
+
+
 def direct_types(ctx, rng, reps):
     """Scalars, enums, arrays and unions parsed directly (not as a structure field): every cut point and a fault at
     every read call."""
@@ -252,6 +283,8 @@ def gen_opts(rng, thorough):
 def run(ctx):
     if ctx.shard % 8 == 5:
         direct_types(ctx, ctx.rng("direct"), 2 if not ctx.thorough else 30)
+    if ctx.shard % 8 == 3:
+        eof_elements(ctx, ctx.rng("eof-elements"), 2 if not ctx.thorough else 20)
     for i in range(N_CASES[ctx.tier]):
         if ctx.out_of_time():
             break
